@@ -19,7 +19,8 @@ RULE = ('prefixes from the name generator; forwarder replies {200 with/without b
         'Nack, silence, garbage content, wrong content type, bad digest signature}; 1..12 concurrent register/unregister calls '
         'at the same clock reading, normal and jittering clock; route() before connecting over two connections; '
         'ControlResponse values through parse_response; distinct = (front-end, operation, reply kind, concurrency) resp. the '
-        'response value shape; non-trivial = every exchange')
+        'response value shape; non-trivial = every exchange'
+        '; route() sets: random nested / permuted prefixes incl. the root, over 2-3 connections of one app, also reconnecting within one clock millisecond (timestamps compared across connections)')
 
 C = lambda s: rc.comp(8, s)   # noqa
 REPLIES = ['200', '200-nobody', '400', '403-nobody', '404', '500-nobody', 'random-code', 'nack', 'silence', 'garbage',
